@@ -51,10 +51,10 @@ CLAIMS = {
         "head updates and merges keeps new/delta/total equal to the set-level contract total'=total+delta, delta'=(new + {x!=y connected}) - total' "
         "(provider_contract_bin, views view0/1/None_spec); this equals the closure contract on acyclic inputs and differs by the derived (x,x) otherwise - "
         "finding F7, kernel-checked witness. The ternary provider is PARTIAL: model tied by correspondence only; its delta views [1],[2],[1,2] lose tuples "
-        "(F23, kernel-checked witnesses) and len_estimate of view [1,2] divides by zero on a key-less version (F24). Tie B: generated programs with one "
+        "(F23, kernel-checked witnesses); len_estimate of view [1,2] divided by zero on a key-less version (F24: repaired by a fix: commit, now proved total). Tie B: generated programs with one "
         "trrel relation (binary/ternary, static / scheduled-arrival / demand-driven recursion, several keys with pauses, every access pattern read inside and "
         "outside the stratum) compiled and compared with the Lean engine model and the naive oracle on the twin; tie C: exhaustive and PRNG op histories on "
-        "the real provider types through the traits generated code uses vs the Lean model vs an independent closure oracle. F7/F23/F24 are attributed only "
+        "the real provider types through the traits generated code uses vs the Lean model vs an independent closure oracle. F7/F23 are attributed only "
         "inside their class predicates and only when the output is what the defect explains.",
    design_ref="DESIGN.md §8 C11",
    note=ENGINE_NOTE + " Provider model (Model/TrRelInd.lean) hand-written after trrel_binary_ind.rs / binary_rel.rs / trrel_ternary_ind.rs / utils.rs; hash "
@@ -100,8 +100,8 @@ CLAIMS = {
    text="Lean 4, kernel-checked for EVERY program, interpretation and input: in the least model of the explicit-closure twin the tagged relation is exactly the "
         "reflexive (on mentioned elements) transitive closure, per key for the ternary form, of the tuples inserted by input and other rules, and other relations "
         "are untouched (twin_binary_iff_closure, twin_ternary_iff_closure, twin_other_relations_untouched); with C01 this is what run() of the twin computes. "
-        "The real provider does NOT meet this in general: findings F8, F11, F12, F14, F17, F18 (panics and lost tuples for ternary relations and for reads inside a "
-        "looping stratum), each with a compiled witness and a decide-d witness on the provider model. PARTIAL: proved for the provider model only for a first batch "
+        "The real provider does NOT meet this in general: findings F8, F11, F12, F14, F18 (panics and lost tuples for ternary relations and for reads inside a "
+        "looping stratum), each with a compiled witness and a decide-d witness on the provider model (F17, the division by zero in len_estimate, is repaired by a fix: commit). PARTIAL: proved for the provider model only for a first batch "
         "(provider_first_batch_contract_partial, provider_merge_never_new). Tie B: generated programs x inputs - one tagged relation in head and body positions, "
         "non-recursive / multi-stratum / looping strata with scheduled arrivals, pausing keys, every access pattern - plain relations compared with the naive least "
         "model of the twin, the Lean engine model on the twin, and the bug-faithful Lean model (exact agreement incl. panics). Tie C: two-batch histories over 3 "
